@@ -49,6 +49,14 @@ def grids(draw, nmax):
         u = np.cumsum(inc)
         xi = lo + (hi - lo) * (u - u[0]) / (u[-1] - u[0])
     xi = np.unique(np.array([S.sig(v, 7) for v in xi]))
+    if len(xi) >= 4 and draw(st.integers(0, 5)) == 0:
+        # two scans stored one after the other (each ascending): the values belong to the data points in the
+        # order given, whatever that order is
+        cut = draw(st.integers(2, len(xi) - 2))
+        first = xi[::2] if draw(st.booleans()) else xi[:cut]
+        rest = np.array([v for v in xi if v not in set(first.tolist())])
+        if len(first) >= 2 and len(rest) >= 1:
+            return kind + "+two-scans", [float(v) for v in np.concatenate([first, rest])]
     return kind, [float(v) for v in xi]
 
 
@@ -59,6 +67,7 @@ def cases(draw, nmax):
     xi_int = draw(st.integers(0, 3)) == 0
     if xi_int:
         xi = [float(v) for v in sorted(set(int(round(v)) for v in xi))]
+        kind = kind.replace("+two-scans", "")
     n = len(xi)
     if draw(st.booleans()):
         lam = S.sig(draw(st.floats(2, 12)), 4)
